@@ -1,5 +1,6 @@
 //! Deterministic simulation with fault injection for icy_engine. See /verif/DESIGN.md.
 
+mod edit;
 mod evidence;
 mod exec_load;
 mod fsbox;
